@@ -430,7 +430,9 @@ class PropertyCheck:
 
     def is_known_failure(self, f):
         for k in self.known:
-            if k.get("status") == "known" and k.get("match") and k["match"] == f.get("match"):
+            hit = (k.get("match") and k["match"] == f.get("match")) or \
+                  (k.get("match_prefix") and str(f.get("match", "")).startswith(k["match_prefix"]))
+            if k.get("status") == "known" and hit:
                 if k["id"] not in [h["id"] for h in self.known_hits]:
                     self.known_hits.append(k)
                 return True
